@@ -117,9 +117,34 @@ type monObj struct {
 	root string // heap root of the containing struct
 	ty   types.Type
 	mon  *MonitorSpec
+	// lockRoot: the monitor's lock is a wrapper mutex (a struct field with a monitor of its own, e.g.
+	// Stream.write of type inspectMutex): the lock that is actually taken is identified by this root.
+	lockRoot string
 }
 
-func (m monObj) key() string { return fmt.Sprintf("%s@%d", m.root, m.ref.id) }
+func (m monObj) key() string {
+	if m.lockRoot != "" {
+		return fmt.Sprintf("%s@%d", m.lockRoot, m.ref.id)
+	}
+	return fmt.Sprintf("%s@%d", m.root, m.ref.id)
+}
+
+// wrapperLockRoot: if the monitor's lock field is itself a struct with a monitor (a wrapper around
+// sync.Mutex), the held key is the one of that inner lock.
+func (x *Exec) wrapperLockRoot(root string, ty types.Type, mon *MonitorSpec) string {
+	st, ok := ty.Underlying().(*types.Struct)
+	if !ok {
+		return ""
+	}
+	for i := 0; i < st.NumFields(); i++ {
+		if st.Field(i).Name() == mon.Lock {
+			if x.monitorOfType(st.Field(i).Type()) != nil {
+				return root + "." + mon.Lock
+			}
+		}
+	}
+	return ""
+}
 
 func (x *Exec) monitorOfType(t types.Type) *MonitorSpec {
 	n, ok := t.(*types.Named)
@@ -313,6 +338,15 @@ func (x *Exec) lockOp(st *State, ins ssa.Instruction, lockPtr Value, op string) 
 		}
 		st.Events = append(st.Events, "lock:"+m.root)
 		x.interfere(st, m, true)
+		// a wrapper mutex (field of an outer struct whose monitor names it as its lock): the outer
+		// monitor's protected fields may have been changed by whoever held the lock before
+		if j := strings.LastIndex(m.root, "."); j > 0 {
+			if oty := x.rootType(m.root[:j]); oty != nil {
+				if omon := x.monitorOfType(oty); omon != nil && omon.Lock == m.root[j+1:] {
+					x.interfere(st, monObj{ref: m.ref, root: m.root[:j], ty: oty, mon: omon, lockRoot: m.root}, true)
+				}
+			}
+		}
 		st.Held[k] = TTrue
 		st.monObjs[k] = m
 		st.lockSnap[k] = st.snapshot()
@@ -408,7 +442,7 @@ func (x *Exec) protectedBy(st *State, p PtrV) (monObj, string, bool) {
 		}
 		for _, f := range mon.Protects {
 			if f == parts[cut] {
-				return monObj{ref: p.Ref, root: root, ty: ty, mon: mon}, f, true
+				return monObj{ref: p.Ref, root: root, ty: ty, mon: mon, lockRoot: x.wrapperLockRoot(root, ty, mon)}, f, true
 			}
 		}
 	}
@@ -573,6 +607,7 @@ func (x *Exec) doSelect(st *State, i *ssa.Select) bool {
 			dir := "recv"
 			if i.States[idx].Dir == types.SendOnly {
 				dir = "send"
+				x.sendSite(s, i, i.States[idx].Chan, i.States[idx].Send)
 			}
 			s.Events = append(s.Events, "select-"+dir)
 		}
@@ -604,7 +639,30 @@ func (x *Exec) doSelect(st *State, i *ssa.Select) bool {
 }
 
 func (x *Exec) doSend(st *State, i *ssa.Send) {
+	x.sendSite(st, i, i.Chan, i.X)
 	st.Events = append(st.Events, "send")
+}
+
+// sendSite: call-site clauses anchored at a channel send, "site send:<field or callee> assert ..."
+// with arg0 the value sent. The channel is named by the struct field it is read from or by the
+// function that returned it.
+func (x *Exec) sendSite(st *State, ins ssa.Instruction, ch, val ssa.Value) {
+	if st.Frame == nil || st.Frame.Fn != x.Fn || x.FC == nil || (len(x.FC.Sites) == 0 && len(x.FC.Ghosts) == 0) {
+		return
+	}
+	name := ch.Name()
+	switch c := ch.(type) {
+	case *ssa.UnOp:
+		if fa, ok := c.X.(*ssa.FieldAddr); ok {
+			name = fa.X.Type().Underlying().(*types.Pointer).Elem().Underlying().(*types.Struct).Field(fa.Field).Name()
+		}
+	case *ssa.Call:
+		name = calleeName(c.Common())
+		if f := c.Common().StaticCallee(); f != nil {
+			name = FuncName(originOf(f))
+		}
+	}
+	x.siteBefore(st, ins, "send:"+name, []Value{x.val(st, val)})
 }
 
 func (x *Exec) doRecv(st *State, i *ssa.UnOp) {
